@@ -45,6 +45,7 @@ class XmlTree(object):
 TREES = {
     'plain': '<note>hi</note>',
     'typed_int': '<bag:v xmlns:bag="urn:bag" xmlns:xs="http://www.w3.org/2001/XMLSchema" xmlns:xsi="http://www.w3.org/2001/XMLSchema-instance" xsi:type="xs:int">5</bag:v>',
+'typed_xsd': '<bag:v xmlns:bag="urn:bag" xmlns:xsd="http://www.w3.org/2001/XMLSchema" xmlns:xsi="http://www.w3.org/2001/XMLSchema-instance" xsi:type="xsd:decimal">5</bag:v>',
     'typed_bag': '<bag:props xmlns:bag="urn:bag" xmlns:xs="http://www.w3.org/2001/XMLSchema" xmlns:xsi="http://www.w3.org/2001/XMLSchema-instance">'
                  '<bag:v xsi:type="xs:string">a</bag:v><bag:v xsi:type="xs:int">5</bag:v></bag:props>',
 }
